@@ -1,3 +1,1036 @@
-//! C06 — not built yet.
-use crate::run::Run;
-pub fn run(_run: &Run) { eprintln!("C06: check not built yet"); std::process::exit(2); }
+//! C06 — encrypted documents yield their plaintext with either password, and only then.
+//!
+//! Generator: tape-driven documents written by `mkpdf` and encrypted by the reference security handler
+//! (`refimpl::c06_sec`, validated at start-up against the ten third-party fixtures in /repo/files).
+//! Every generated document is read back with the reference reader/decryptor before the library sees it.
+//! Oracle: open with user / owner password in the four configurations; every string reached through
+//! `resolve` and every stream's `raw_data` / `Stream::data` equals the plaintext; passwords the reference
+//! rejects must be rejected with root cause `InvalidPassword`; the /Encrypt object's own strings and the
+//! metadata stream (EncryptMetadata false) come back byte-identical.
+use crate::doc::{root_kind, Cfg, CFGS};
+use crate::mkpdf::*;
+use crate::panicmon::guard;
+use crate::par::par_for;
+use crate::refimpl::c06_read as rd;
+use crate::refimpl::c06_sec as sec;
+use crate::refimpl::c06_sec::{Cfm, EncDict};
+use crate::rng::{fnv, Rng};
+use crate::run::{hex, show, Run};
+use crate::tape::Src;
+use crate::with_file;
+use pdf::object::{PlainRef, Resolve, Stream};
+use pdf::primitive::Primitive;
+use serde_json::{json, Value};
+use std::collections::BTreeMap;
+use std::sync::Mutex;
+
+// ------------------------------------------------------------------------------------------ handlers
+
+#[derive(Clone, Copy, PartialEq, Eq, Debug)]
+enum H { R2, R3, R4V2, R4Aes, R5, R6 }
+const HS: [H; 6] = [H::R2, H::R3, H::R4V2, H::R4Aes, H::R5, H::R6];
+impl H {
+    fn r(self) -> u32 { match self { H::R2 => 2, H::R3 => 3, H::R4V2 | H::R4Aes => 4, H::R5 => 5, H::R6 => 6 } }
+    fn cfm(self) -> Cfm { match self { H::R2 | H::R3 | H::R4V2 => Cfm::Rc4, H::R4Aes => Cfm::AesV2, H::R5 | H::R6 => Cfm::AesV3 } }
+    fn name(self, key_bytes: usize) -> String {
+        let fam = match self { H::R2 => "R2-RC4", H::R3 => "R3-RC4", H::R4V2 => "R4-V2", H::R4Aes => "R4-AESV2", H::R5 => "R5-AESV3", H::R6 => "R6-AESV3" };
+        format!("{}-{}", fam, key_bytes * 8)
+    }
+    fn var_keylen(self) -> bool { matches!(self, H::R3 | H::R4V2) }
+}
+
+const KEY_LABELS: [&str; 12] = ["key-128", "key-40", "key-48", "key-56", "key-64", "key-72", "key-80", "key-88", "key-96", "key-104", "key-112", "key-120"];
+const LEN_OPTS: [&str; 10] = ["len-short", "len0", "len1", "len15", "len16", "len17", "len31", "len32", "len33", "len-big"];
+const NONASCII: [&str; 6] = ["\u{e9}", "\u{df}", "\u{436}", "\u{4e2d}", "\u{20ac}", "\u{fc}"]; // NFKC-stable, assigned in Unicode 3.2, not RandAL
+
+// ------------------------------------------------------------------------------------------ case description
+
+#[derive(Clone, Debug)]
+struct Item {
+    nr: u32,
+    gen: u16,
+    /// plaintext object; for streams the data is the *encoded* (filtered) data, i.e. what gets encrypted
+    obj: Obj,
+    /// for streams: the data after the filters
+    decoded: Option<Vec<u8>>,
+    in_objstm: bool,
+    /// (is_stream, plaintext length) of every encrypted payload in this item, for the evidence counters
+    lens: Vec<(bool, usize)>,
+}
+
+#[derive(Clone, Debug)]
+struct Case {
+    h: H, key_bytes: usize, v: u32,
+    upw: Vec<u8>, opw: Vec<u8>, p: i32, id0: Vec<u8>, id1: Vec<u8>,
+    encrypt_direct: bool, encmeta: bool, encmeta_explicit: bool,
+    stm_identity: bool, str_identity: bool, cf_len: bool, enc_len: bool, cf_type: bool,
+    near_miss: bool, xref_stream: bool,
+    contents_nr: Option<u32>, info_nr: Option<u32>, meta_nr: Option<u32>, enc_nr: Option<u32>, objstm_nr: Option<u32>, xref_nr: Option<u32>,
+    info_title: Vec<u8>, xmp: Vec<u8>, contents_decoded: Vec<u8>,
+    items: Vec<Item>, seed32: u32, size: u32,
+    labels: String,
+}
+
+fn alt_if(src: &mut Src, applicable: bool, w0: u32, opts: &[&'static str]) -> usize {
+    let keep = src.labels.len();
+    let i = src.alt(w0, opts);
+    if applicable { i } else { src.labels.truncate(keep); 0 }
+}
+
+/// always two draws (positional tape: zeroing one entry never shifts the meaning of the others)
+fn draw_len(src: &mut Src) -> usize {
+    let a = src.alt(3, &LEN_OPTS);
+    let v = src.draw(4064);
+    match a {
+        0 => 24, 1 => 0, 2 => 1, 3 => 15, 4 => 16, 5 => 17, 6 => 31, 7 => 32, 8 => 33,
+        _ => if v % 64 == 0 { 4096 } else { 33 + v as usize },
+    }
+}
+fn len_class(n: usize) -> &'static str {
+    match n { 0 => "len0", 1 => "len1", 2..=14 => "len2-14", 15 => "len15", 16 => "len16", 17 => "len17", 18..=30 => "len18-30", 31 => "len31", 32 => "len32", 33 => "len33", 34..=4095 => "len34-4095", _ => "len>=4096" }
+}
+
+/// unique, recognisable plaintext of exactly `len` bytes (as far as `len` allows)
+fn payload(seed32: u32, nr: u32, gen: u16, counter: &mut u32, len: usize, compressible: bool) -> Vec<u8> {
+    *counter += 1;
+    let mut v = format!("o{}g{}c{}:", nr, gen, *counter).into_bytes();
+    let mut r = Rng::derive(seed32 as u64, nr as u64, *counter as u64);
+    while v.len() < len {
+        if compressible { v.extend_from_slice(b"pdf-verif "); } else { v.push(r.next_u64() as u8); }
+    }
+    v.truncate(len);
+    v
+}
+
+/// always 40 draws; the first `chars` are used
+fn draw_pw(src: &mut Src, chars: usize, utf8_ok: bool) -> Vec<u8> {
+    let mut out = Vec::new();
+    let mut non_ascii = false;
+    for k in 0..40 {
+        let v = src.draw(95 + 6);
+        if k >= chars { continue; }
+        if v < 95 { out.push(0x20 + v as u8); }
+        else if utf8_ok { out.extend_from_slice(NONASCII[(v - 95) as usize].as_bytes()); non_ascii = true; }
+        else { out.push(0x20 + (v % 95) as u8); }
+    }
+    if non_ascii { src.label("pw-nonascii"); }
+    out
+}
+
+/// All draws happen in the same order for every handler, so one tape can be replayed under another handler.
+fn gen_case(src: &mut Src, force_h: usize, huge_ok: bool) -> Case {
+    let h = HS[force_h % 6];
+    let seed32 = src.u32full();
+    let r = h.r();
+    let utf8_ok = r >= 5;
+    // key length
+    let ki = alt_if(src, h.var_keylen(), 3, &KEY_LABELS);
+    let key_bytes = match h { H::R2 => 5, H::R3 | H::R4V2 => if ki == 0 { 16 } else { 4 + ki }, H::R4Aes => 16, H::R5 | H::R6 => 32 };
+    let r3v1 = alt_if(src, h == H::R3 && key_bytes == 5, 3, &["v2", "r3-v1"]) == 1;
+    let v = match h { H::R2 => 1, H::R3 => if r3v1 { 1 } else { 2 }, H::R4V2 | H::R4Aes => 4, H::R5 | H::R6 => 5 };
+    // passwords (lengths in characters)
+    let (ua, us, ul) = (src.alt(2, &["upw-empty", "upw-short", "upw-32", "upw-long"]), src.draw(31) as usize, src.draw(8) as usize);
+    let upw = draw_pw(src, match ua { 0 => 0, 1 => 1 + us, 2 => 32, _ => 33 + ul }, utf8_ok);
+    let (oc, os, ol) = (src.alt(3, &["opw-short", "opw-empty", "opw-32", "opw-long", "opw-eq-user"]), src.draw(31) as usize, src.draw(8) as usize);
+    let opw_drawn = draw_pw(src, match oc { 0 => 1 + os, 1 => 0, 2 => 32, 3 => 33 + ol, _ => 0 }, utf8_ok);
+    let opw = if oc == 4 { upw.clone() } else { opw_drawn };
+    // permissions: reserved bits as the specification demands (1-2 zero, 7-8 one, 13-32 one; R2 keeps 9-12 one)
+    let (pa, a, b) = (src.alt(2, &["p-all", "p-random"]), src.draw(16), src.draw(16));
+    let p: i32 = if pa == 0 { -4 } else {
+        let mut p = 0xFFFF_F0C0u32 | (a << 2);
+        p |= if r == 2 { 0xF00 } else { b << 8 };
+        p as i32
+    };
+    let (ia, is, il) = (src.alt(3, &["id16", "id-short", "id-long"]), src.draw(15) as usize, src.draw(16) as usize);
+    let idn = match ia { 0 => 16, 1 => 1 + is, _ => 17 + il };
+    let mut ir = Rng::derive(seed32 as u64, 0x1d, 0);
+    let id0 = ir.bytes(idn);
+    let id1 = ir.bytes(idn);
+    let encrypt_direct = src.alt(3, &["encrypt-indirect", "encrypt-direct"]) == 1;
+    let xref_stream = src.alt(3, &["xref-table", "xref-stream"]) == 1;
+    let objstm = alt_if(src, xref_stream, 2, &["no-objstm", "objstm"]) == 1;
+    let em = alt_if(src, r >= 4, 2, &["encmeta-default", "encmeta-true-explicit", "encmeta-false"]);
+    let metadata = src.alt(1, &["no-metadata", "metadata"]) == 1;
+    let info = src.alt(2, &["no-info", "info-dict"]) == 1;
+    let contents = src.alt(2, &["no-contents", "page-contents"]) == 1;
+    // Domain note: /StmF /Identity is rejected by the library at load ("missing crypt filter entry"), i.e. it is not a
+    // variant the library accepts, so it is outside the statement and not generated; /StrF /Identity loads and is kept.
+    let cfk = match alt_if(src, r >= 4, 8, &["cf-std", "strf-identity"]) { 0 => 0, _ => 2 };
+    let lk = alt_if(src, r >= 4, 6, &["len-both", "cf-length-omitted", "enc-length-omitted"]);
+    let l40 = alt_if(src, r <= 3 && key_bytes == 5, 1, &["length-40", "length-omitted"]) == 1;
+    let cf_type = alt_if(src, r >= 4, 1, &["cf-plain", "cf-with-type"]) == 1;
+    let near_miss = src.alt(11, &["normal", "u-near-miss"]) == 1;
+    let enc_len = if r >= 4 { lk != 2 } else { !l40 };
+    let cf_len = lk != 1;
+
+    // object numbers
+    let mut next = 4u32;
+    let mut take = |c: bool| -> Option<u32> { if c { next += 1; Some(next - 1) } else { None } };
+    let contents_nr = take(contents);
+    let info_nr = take(info);
+    let meta_nr = take(metadata);
+    let enc_nr = take(!encrypt_direct);
+    let mut used: Vec<u32> = (0..next).collect();
+    let mut counter = 0u32;
+    // item 0 is always a string object, item 1 always a stream object, then 0..4 further objects of any kind;
+    // every item consumes the same number of draws
+    let n_items = 2 + src.draw(5) as usize;
+    let mut items = Vec::new();
+    for k in 0..n_items {
+        let kind = match k {
+            0 => src.alt(2, &["bare-string", "str-in-dict", "str-in-array", "str-nested"]),
+            1 => 4 + src.alt(2, &["plain-stream", "stream-flate", "str-in-stream-dict"]),
+            _ => src.alt(2, &["bare-string", "str-in-dict", "str-in-array", "str-nested", "extra-stream", "stream-flate", "str-in-stream-dict"]),
+        };
+        // Domain note: object numbers stay below backend::MAX_ID (1,000,000), the library's deliberate resource limit.
+        let nrk = src.alt(4, &["nr-next", "objnr-3byte"]);
+        let nrv = src.draw(200_000);
+        let is_stream = kind >= 4;
+        let in_os = alt_if(src, objstm && !is_stream, 1, &["direct-obj", "in-objstm"]) == 1;
+        let genk = alt_if(src, !in_os, 4, &["gen0", "gen-nonzero"]);
+        let genv = src.draw(65534);
+        let mut nr = match nrk { 0 => next, 1 => 65_536 + nrv, _ => if huge_ok { 8_388_607 - (nrv % 1000) } else { 65_536 + nrv } };
+        while used.contains(&nr) { nr += 1; }
+        if nrk == 0 { next = nr + 1; }
+        used.push(nr);
+        let gen = if genk == 1 { 1 + genv as u16 } else { 0 };
+        // three length draws per item; only as many as the kind needs keep their labels
+        let need = match kind { 0 | 4 | 5 => 1, 1 | 3 | 6 => 2, _ => 3 };
+        let mut ls = [0usize; 3];
+        for (j, l) in ls.iter_mut().enumerate() {
+            let keep = src.labels.len();
+            *l = draw_len(src);
+            if j >= need { src.labels.truncate(keep); }
+        }
+        let mut lens: Vec<(bool, usize)> = Vec::new();
+        let mut li = 0usize;
+        let mut s = |lens: &mut Vec<(bool, usize)>, counter: &mut u32| -> Obj {
+            let l = ls[li]; li += 1;
+            lens.push((false, l));
+            Obj::Str(payload(seed32, nr, gen, counter, l, false))
+        };
+        let (obj, decoded) = match kind {
+            0 => (s(&mut lens, &mut counter), None),
+            1 => (dict(vec![("A", s(&mut lens, &mut counter)), ("B", Obj::Int(nr as i64)), ("C", s(&mut lens, &mut counter))]), None),
+            2 => (arr(vec![s(&mut lens, &mut counter), Obj::Int(7), s(&mut lens, &mut counter), arr(vec![s(&mut lens, &mut counter)])]), None),
+            3 => (dict(vec![("K", arr(vec![dict(vec![("S", s(&mut lens, &mut counter))]), s(&mut lens, &mut counter)])), ("N", name("Nested"))]), None),
+            _ => {
+                let mut d: Vec<(&str, Obj)> = vec![("Kind", name("VerifStream"))];
+                if kind == 6 { d.push(("Desc", s(&mut lens, &mut counter))); }
+                let l = ls[if kind == 6 { 1 } else { 0 }];
+                let dec = payload(seed32, nr, gen, &mut counter, l, kind == 5);
+                let data = if kind == 5 { d.push(("Filter", name("FlateDecode"))); miniz_oxide::deflate::compress_to_vec_zlib(&dec, 6) } else { dec.clone() };
+                lens.push((true, data.len()));
+                (stream(d, &data), Some(dec))
+            }
+        };
+        items.push(Item { nr, gen, obj, decoded, in_objstm: in_os, lens });
+    }
+    let any_os = items.iter().any(|i| i.in_objstm);
+    let mut top = used.iter().cloned().max().unwrap_or(3) + 1;
+    let objstm_nr = if any_os { top += 1; Some(top - 1) } else { None };
+    let xref_nr = if xref_stream { top += 1; Some(top - 1) } else { None };
+    let info_title = payload(seed32, info_nr.unwrap_or(0), 0, &mut counter, 24, false).iter().map(|b| 0x20 + b % 95).collect();
+    let mut xmp = b"<?xpacket begin=\"\" id=\"W5M0MpCehiHzreSzNTczkc9d\"?><x:xmpmeta xmlns:x=\"adobe:ns:meta/\"><!-- ".to_vec();
+    xmp.extend(payload(seed32, meta_nr.unwrap_or(0), 0, &mut counter, 20, true));
+    xmp.extend_from_slice(b" --></x:xmpmeta><?xpacket end=\"w\"?>");
+    let mut contents_decoded = b"BT /F1 12 Tf 72 700 Td (".to_vec();
+    contents_decoded.extend(payload(seed32, contents_nr.unwrap_or(0), 0, &mut counter, 20, true));
+    contents_decoded.extend_from_slice(b") Tj ET\n");
+    Case {
+        h, key_bytes, v, upw, opw, p, id0, id1, encrypt_direct, encmeta: em != 2, encmeta_explicit: em != 0,
+        stm_identity: cfk == 1, str_identity: cfk == 2, cf_len, enc_len, cf_type, near_miss, xref_stream,
+        contents_nr, info_nr, meta_nr, enc_nr, objstm_nr, xref_nr, info_title, xmp, contents_decoded,
+        items, seed32, size: top, labels: src.label_set(),
+    }
+}
+
+impl Case {
+    fn variant(&self) -> String { self.h.name(self.key_bytes) }
+    fn str_cfm(&self) -> Option<Cfm> { if self.str_identity { None } else { Some(self.h.cfm()) } }
+    fn stm_cfm(&self) -> Option<Cfm> { if self.stm_identity { None } else { Some(self.h.cfm()) } }
+    /// Algorithm 3 a): without an owner password the user password is used (R2-R4)
+    fn eff_opw(&self) -> &[u8] { if self.h.r() <= 4 && self.opw.is_empty() { &self.upw } else { &self.opw } }
+}
+
+// ------------------------------------------------------------------------------------------ building
+
+#[derive(Clone, Copy, PartialEq, Debug)]
+enum Mode { Normal, Plain, MetaStream }
+
+struct Rec { nr: u32, gen: u16, off: usize, obj: Obj, mode: Mode }
+
+struct Built {
+    bytes: Vec<u8>,
+    file_key: Vec<u8>,
+    /// strings of the /Encrypt dictionary as written
+    enc_strings: Vec<(&'static str, Vec<u8>)>,
+    recs: Vec<Rec>,
+    objstm_members: Vec<(u32, Obj)>,
+    objstm_off: Option<usize>,
+    xref_off: usize,
+}
+
+fn iv16(seed32: u32, nr: u32, k: u32) -> [u8; 16] {
+    let mut r = Rng::derive(seed32 as u64 ^ 0x1111_0000_0000, nr as u64, k as u64);
+    let mut iv = [0u8; 16];
+    iv.copy_from_slice(&r.bytes(16));
+    iv
+}
+
+fn build(c: &Case) -> Built {
+    let r = c.h.r();
+    let mut rr = Rng::derive(c.seed32 as u64, 0x5ec, 0);
+    let mut enc_strings: Vec<(&'static str, Vec<u8>)> = Vec::new();
+    let file_key: Vec<u8>;
+    if r <= 4 {
+        let o = sec::alg3_o(r, c.key_bytes, &c.opw, &c.upw);
+        file_key = sec::alg2_file_key(r, c.key_bytes, &c.upw, &o, c.p, &c.id0, c.encmeta);
+        let mut tail = [0u8; 16];
+        tail.copy_from_slice(&rr.bytes(16));
+        let mut u = sec::alg45_u(r, &file_key, &c.id0, &tail);
+        if c.near_miss { let k = if r == 2 { 31 } else { 15 }; u[k] ^= 0x01; }
+        enc_strings.push(("O", o));
+        enc_strings.push(("U", u));
+    } else {
+        file_key = rr.bytes(32);
+        let mut us = [0u8; 16]; us.copy_from_slice(&rr.bytes(16));
+        let mut os = [0u8; 16]; os.copy_from_slice(&rr.bytes(16));
+        let mut pr = [0u8; 4]; pr.copy_from_slice(&rr.bytes(4));
+        let (mut u, ue) = sec::alg8_u_ue(r, &c.upw, &file_key, &us);
+        if c.near_miss { u[31] ^= 0x01; }
+        let (o, oe) = sec::alg9_o_oe(r, &c.opw, &file_key, &os, &u);
+        let perms = sec::alg10_perms(c.p, c.encmeta, &file_key, &pr);
+        enc_strings.push(("O", o));
+        enc_strings.push(("U", u));
+        enc_strings.push(("OE", oe));
+        enc_strings.push(("UE", ue));
+        enc_strings.push(("Perms", perms));
+    }
+    // /Encrypt dictionary
+    let bits = (c.key_bytes * 8) as i64;
+    let mut ed: Vec<(&str, Obj)> = vec![("Filter", name("Standard")), ("V", Obj::Int(c.v as i64)), ("R", Obj::Int(r as i64))];
+    if c.enc_len { ed.push(("Length", Obj::Int(bits))); }
+    ed.push(("P", Obj::Int(c.p as i64)));
+    if r >= 4 {
+        let mut cf: Vec<(&str, Obj)> = Vec::new();
+        if c.cf_type { cf.push(("Type", name("CryptFilter"))); }
+        cf.push(("AuthEvent", name("DocOpen")));
+        cf.push(("CFM", name(match c.h.cfm() { Cfm::Rc4 => "V2", Cfm::AesV2 => "AESV2", Cfm::AesV3 => "AESV3" })));
+        if c.cf_len { cf.push(("Length", Obj::Int(c.key_bytes as i64))); }
+        ed.push(("CF", dict(vec![("StdCF", dict(cf))])));
+        ed.push(("StmF", name(if c.stm_identity { "Identity" } else { "StdCF" })));
+        ed.push(("StrF", name(if c.str_identity { "Identity" } else { "StdCF" })));
+        if c.encmeta_explicit { ed.push(("EncryptMetadata", Obj::Bool(c.encmeta))); }
+    }
+    for (k, v) in &enc_strings { ed.push((k, Obj::Str(v.clone()))); }
+    let enc_obj = dict(ed);
+
+    let ivctr = std::cell::Cell::new(0u32);
+    let (str_cfm, stm_cfm) = (c.str_cfm(), c.stm_cfm());
+    let exempt_meta = if c.encmeta { None } else { c.meta_nr };
+    let key = file_key.clone();
+    let seed32 = c.seed32;
+    let crypt = move |nr: u32, gen: u16, data: &[u8], is_stream: bool| -> Vec<u8> {
+        if is_stream && Some(nr) == exempt_meta { return data.to_vec(); }
+        match if is_stream { stm_cfm } else { str_cfm } {
+            None => data.to_vec(),
+            Some(cfm) => {
+                let k = ivctr.get();
+                ivctr.set(k + 1);
+                sec::encrypt_data(&key, cfm, nr, gen, &iv16(seed32, nr, k), data)
+            }
+        }
+    };
+    let mut w = W::new(b"", "1.7");
+    w.crypt = Some(&crypt);
+    w.free(0, 0, 65535);
+    let mut recs: Vec<Rec> = Vec::new();
+    let mut put = |w: &mut W, nr: u32, gen: u16, obj: Obj, mode: Mode| {
+        let off = w.pos();
+        if mode == Mode::Plain { w.obj_plain(nr, gen, &obj); } else { w.obj(nr, gen, &obj); }
+        recs.push(Rec { nr, gen, off, obj, mode });
+    };
+    let mut cat = vec![("Type", name("Catalog")), ("Pages", rf(2))];
+    if let Some(m) = c.meta_nr { cat.push(("Metadata", rf(m))); }
+    put(&mut w, 1, 0, dict(cat), Mode::Normal);
+    put(&mut w, 2, 0, dict(vec![("Type", name("Pages")), ("Count", Obj::Int(1)), ("Kids", arr(vec![rf(3)]))]), Mode::Normal);
+    let mut page = vec![("Type", name("Page")), ("Parent", rf(2)), ("MediaBox", ints(&[0, 0, 612, 792]))];
+    if let Some(n) = c.contents_nr { page.push(("Contents", rf(n))); }
+    put(&mut w, 3, 0, dict(page), Mode::Normal);
+    if let Some(n) = c.contents_nr {
+        let data = miniz_oxide::deflate::compress_to_vec_zlib(&c.contents_decoded, 6);
+        put(&mut w, n, 0, stream(vec![("Filter", name("FlateDecode"))], &data), Mode::Normal);
+    }
+    if let Some(n) = c.info_nr {
+        put(&mut w, n, 0, dict(vec![("Title", Obj::Str(c.info_title.clone())), ("Producer", st("pdfmon C06"))]), Mode::Normal);
+    }
+    if let Some(n) = c.meta_nr {
+        put(&mut w, n, 0, stream(vec![("Type", name("Metadata")), ("Subtype", name("XML"))], &c.xmp), if c.encmeta { Mode::Normal } else { Mode::MetaStream });
+    }
+    if let Some(n) = c.enc_nr { put(&mut w, n, 0, enc_obj.clone(), Mode::Plain); }
+    let mut members: Vec<(u32, Obj)> = Vec::new();
+    for it in &c.items {
+        if it.in_objstm { members.push((it.nr, it.obj.clone())); } else { put(&mut w, it.nr, it.gen, it.obj.clone(), Mode::Normal); }
+    }
+    let mut objstm_off = None;
+    if let Some(n) = c.objstm_nr {
+        objstm_off = Some(w.pos());
+        w.objstm(n, &members, b"\n", 0, &flate_filter);
+    }
+    let mut tr: Vec<(Vec<u8>, Obj)> = vec![(b"Root".to_vec(), rf(1))];
+    if let Some(n) = c.info_nr { tr.push((b"Info".to_vec(), rf(n))); }
+    tr.push((b"Encrypt".to_vec(), match c.enc_nr { Some(n) => rf(n), None => enc_obj.clone() }));
+    tr.push((b"ID".to_vec(), arr(vec![Obj::Str(c.id0.clone()), Obj::Str(c.id1.clone())])));
+    let xref_off = match c.xref_nr {
+        Some(n) => w.xref_stream(n, tr, c.size, &[], &flate_filter),
+        None => w.xref_table(tr, c.size, &[]),
+    };
+    let bytes = std::mem::take(&mut w.buf);
+    drop(w);
+    Built { bytes, file_key, enc_strings, recs, objstm_members: members, objstm_off, xref_off }
+}
+
+// ------------------------------------------------------------------------------------------ reference read-back
+
+fn obj_int(o: Option<&Obj>) -> Option<i64> { match o { Some(Obj::Int(i)) => Some(*i), _ => None } }
+fn obj_str(o: Option<&Obj>) -> Vec<u8> { match o { Some(Obj::Str(s)) => s.clone(), _ => Vec::new() } }
+fn obj_name(o: Option<&Obj>) -> Option<&[u8]> { match o { Some(Obj::Name(n)) => Some(n), _ => None } }
+
+/// What a reader derives from an /Encrypt dictionary (as parsed) and ID[0]; returns (dict, StmF is StdCF, StrF is StdCF)
+fn encdict_from_obj(e: &Obj, id0: &[u8]) -> Result<(EncDict, bool, bool), String> {
+    if obj_name(e.get("Filter")) != Some(b"Standard") { return Err("Filter is not /Standard".into()); }
+    let v = obj_int(e.get("V")).ok_or("V missing")?;
+    let r = obj_int(e.get("R")).ok_or("R missing")? as u32;
+    let bits = obj_int(e.get("Length")).unwrap_or(40);
+    let p = obj_int(e.get("P")).ok_or("P missing")? as i32;
+    let encrypt_metadata = !matches!(e.get("EncryptMetadata"), Some(Obj::Bool(false)));
+    let (mut cfm, mut key_bytes, mut stm, mut strf) = (Cfm::Rc4, if v == 1 { 5 } else { (bits / 8) as usize }, true, true);
+    if v >= 4 {
+        stm = obj_name(e.get("StmF")) == Some(b"StdCF");
+        strf = obj_name(e.get("StrF")) == Some(b"StdCF");
+        let cf = e.get("CF").and_then(|c| c.get("StdCF")).ok_or("CF/StdCF missing")?;
+        cfm = match obj_name(cf.get("CFM")) { Some(b"V2") => Cfm::Rc4, Some(b"AESV2") => Cfm::AesV2, Some(b"AESV3") => Cfm::AesV3, other => return Err(format!("CFM {:?}", other)) };
+        key_bytes = match cfm {
+            Cfm::AesV3 => 32,
+            Cfm::AesV2 => 16,
+            Cfm::Rc4 => match obj_int(cf.get("Length")) { Some(n) => n as usize, None => (bits / 8) as usize },
+        };
+    }
+    if r <= 4 && !(5..=16).contains(&key_bytes) { return Err(format!("key length {} bytes", key_bytes)); }
+    Ok((EncDict { r, key_bytes, cfm, p, encrypt_metadata, id0: id0.to_vec(), o: obj_str(e.get("O")), u: obj_str(e.get("U")),
+        oe: obj_str(e.get("OE")), ue: obj_str(e.get("UE")), perms: obj_str(e.get("Perms")) }, stm, strf))
+}
+
+fn decrypt_obj(o: &Obj, nr: u32, gen: u16, key: &[u8], str_cfm: Option<Cfm>, stm_cfm: Option<Cfm>) -> Result<Obj, String> {
+    Ok(match o {
+        Obj::Str(s) => Obj::Str(match str_cfm { Some(c) => sec::decrypt_data(key, c, nr, gen, s)?, None => s.clone() }),
+        Obj::Arr(a) => Obj::Arr(a.iter().map(|e| decrypt_obj(e, nr, gen, key, str_cfm, stm_cfm)).collect::<Result<_, _>>()?),
+        Obj::Dict(d) => Obj::Dict(d.iter().map(|(k, v)| Ok((k.clone(), decrypt_obj(v, nr, gen, key, str_cfm, stm_cfm)?))).collect::<Result<_, String>>()?),
+        Obj::Stream(d, data) => {
+            let mut dd = Vec::new();
+            for (k, v) in d { if k != b"Length" { dd.push((k.clone(), decrypt_obj(v, nr, gen, key, str_cfm, stm_cfm)?)); } }
+            Obj::Stream(dd, match stm_cfm { Some(c) => sec::decrypt_data(key, c, nr, gen, data)?, None => data.clone() })
+        }
+        other => other.clone(),
+    })
+}
+
+/// §4.7 generator conformance: read the written bytes back with the reference reader and the reference
+/// *decryptor* (starting from the written /Encrypt dictionary and the passwords only) and recover the description.
+fn verify_readback(c: &Case, b: &Built) -> Result<(), String> {
+    // trailer
+    let tr = if c.xref_stream {
+        let (_, _, o) = rd::P::new(&b.bytes, b.xref_off).indirect().map_err(|e| format!("xref stream: {}", e))?;
+        o
+    } else {
+        let mut p = rd::P::new(&b.bytes, b.xref_off);
+        p.keyword(b"xref")?;
+        let pos = (p.i..b.bytes.len().saturating_sub(7)).find(|&i| &b.bytes[i..i + 7] == b"trailer").ok_or("no trailer")?;
+        rd::P::new(&b.bytes, pos + 7).object()?
+    };
+    let id0 = match tr.get("ID") { Some(Obj::Arr(a)) if a.len() == 2 => obj_str(a.first()), _ => return Err("trailer /ID".into()) };
+    if id0 != c.id0 { return Err("ID[0] differs".into()); }
+    let enc = match tr.get("Encrypt") {
+        Some(Obj::Ref(n, 0)) => {
+            let rec = b.recs.iter().find(|r| r.nr == *n).ok_or("Encrypt ref target unknown")?;
+            rd::P::new(&b.bytes, rec.off).indirect()?.2
+        }
+        Some(d @ Obj::Dict(_)) => d.clone(),
+        _ => return Err("trailer /Encrypt".into()),
+    };
+    let (ed, stm_std, str_std) = encdict_from_obj(&enc, &id0)?;
+    if ed.r != c.h.r() || ed.key_bytes != c.key_bytes || ed.cfm != c.h.cfm() || ed.encrypt_metadata != c.encmeta || stm_std == c.stm_identity || str_std == c.str_identity {
+        return Err(format!("encryption dictionary reads back differently: r={} key_bytes={} cfm={:?}", ed.r, ed.key_bytes, ed.cfm));
+    }
+    if ed.r >= 5 {
+        // Perms must validate with the generator's key
+        sec::alg13_check_perms(&ed, &b.file_key)?;
+    }
+    let key = match sec::authenticate(&ed, &c.upw) {
+        Ok((k, _)) => { if c.near_miss && c.upw != c.eff_opw() { return Err("near-miss document accepts the user password".into()); } Some(k) }
+        Err(e) => { if !c.near_miss { return Err(format!("user password: {}", e)); } None }
+    };
+    let okey = match sec::authenticate(&ed, c.eff_opw()) {
+        Ok((k, _)) => Some(k),
+        Err(e) => { if !(c.near_miss && ed.r <= 4) { return Err(format!("owner password: {}", e)); } None }
+    };
+    for k in [&key, &okey].into_iter().flatten() { if *k != b.file_key { return Err("recovered file key differs from the generator's".into()); } }
+    let key = &b.file_key;
+    let (sc, tc) = (if str_std { Some(ed.cfm) } else { None }, if stm_std { Some(ed.cfm) } else { None });
+    for rec in &b.recs {
+        let (nr, gen, o) = rd::P::new(&b.bytes, rec.off).indirect().map_err(|e| format!("object {}: {}", rec.nr, e))?;
+        if nr != rec.nr || gen != rec.gen { return Err(format!("object header {} {} != {} {}", nr, gen, rec.nr, rec.gen)); }
+        let plain = match rec.mode {
+            Mode::Normal => decrypt_obj(&o, nr, gen, key, sc, tc),
+            Mode::Plain => decrypt_obj(&o, nr, gen, key, None, None),
+            Mode::MetaStream => decrypt_obj(&o, nr, gen, key, sc, None),
+        }.map_err(|e| format!("object {}: {}", nr, e))?;
+        if plain != rec.obj { return Err(format!("object {} {} does not read back as written", nr, gen)); }
+    }
+    if let (Some(off), Some(osn)) = (b.objstm_off, c.objstm_nr) {
+        let (nr, gen, o) = rd::P::new(&b.bytes, off).indirect()?;
+        if nr != osn { return Err("objstm header".into()); }
+        let Obj::Stream(d, data) = decrypt_obj(&o, nr, gen, key, sc, tc)? else { return Err("objstm not a stream".into()) };
+        let body = crate::refimpl::codec::zlib_decode(&data)?;
+        let first = d.iter().find(|(k, _)| k == b"First").and_then(|(_, v)| obj_int(Some(v))).ok_or("First")? as usize;
+        let mut hp = rd::P::new(&body, 0);
+        for (mnr, mobj) in &b.objstm_members {
+            let n = hp.uint()? as u32;
+            let o = hp.uint()? as usize;
+            if n != *mnr { return Err("objstm member number".into()); }
+            let got = rd::P::new(&body, first + o).object()?;
+            if got != *mobj { return Err(format!("objstm member {} does not read back", n)); }
+        }
+    }
+    Ok(())
+}
+
+// ------------------------------------------------------------------------------------------ oracle on the library
+
+/// `class` = outcome class of the fixed vocabulary (or a panic signature), optionally followed by "~<root error kind>".
+/// The part after '~' keeps shrinking on the same failure and separates selection groups; it is not part of the signature.
+#[derive(Clone, Debug)]
+struct Fail { class: String, detail: String }
+fn outcome(class: &str) -> &str { class.split('~').next().unwrap_or(class) }
+
+fn pr(nr: u32, gen: u16) -> PlainRef { PlainRef { id: nr as u64, gen: gen as u64 } }
+
+/// compare a resolved primitive with the expected plaintext object; strings and structure
+fn cmp_prim(p: &Primitive, o: &Obj, path: &str, wrong: &mut Vec<String>, structure: &mut Vec<String>) {
+    match (p, o) {
+        (Primitive::String(s), Obj::Str(e)) => if s.as_bytes() != &e[..] {
+            wrong.push(format!("{}: string of {} bytes read as {} bytes: expected {} got {}", path, e.len(), s.as_bytes().len(), show(&e[..e.len().min(40)]), show(&s.as_bytes()[..s.as_bytes().len().min(40)])));
+        },
+        (Primitive::Integer(i), Obj::Int(e)) if *i as i64 == *e => {}
+        (Primitive::Name(n), Obj::Name(e)) if n.as_bytes() == &e[..] => {}
+        (Primitive::Boolean(b), Obj::Bool(e)) if b == e => {}
+        (Primitive::Reference(r), Obj::Ref(n, g)) if r.id == *n as u64 && r.gen == *g as u64 => {}
+        (Primitive::Array(a), Obj::Arr(e)) if a.len() == e.len() => for (k, (x, y)) in a.iter().zip(e).enumerate() { cmp_prim(x, y, &format!("{}[{}]", path, k), wrong, structure); },
+        (Primitive::Dictionary(d), Obj::Dict(e)) => cmp_dict(d, e, path, wrong, structure),
+        (Primitive::Stream(s), Obj::Stream(e, _)) => cmp_dict(&s.info, e, path, wrong, structure),
+        _ => structure.push(format!("{}: expected {:?}, found {}", path, std::mem::discriminant(o), p.get_debug_name())),
+    }
+}
+fn cmp_dict(d: &pdf::primitive::Dictionary, e: &[(Vec<u8>, Obj)], path: &str, wrong: &mut Vec<String>, structure: &mut Vec<String>) {
+    for (k, v) in e {
+        let ks = String::from_utf8_lossy(k).to_string();
+        match d.get(&ks) { Some(x) => cmp_prim(x, v, &format!("{}/{}", path, ks), wrong, structure), None => structure.push(format!("{}/{} missing", path, ks)) }
+    }
+}
+
+fn check_stream<R: Resolve>(res: &R, p: Primitive, raw: &[u8], decoded: &[u8], what: &str, cls_wrong: &str, cls_err: &str, fails: &mut Vec<Fail>) {
+    let Primitive::Stream(ps) = p else { return };
+    match guard(|| ps.raw_data(res)) {
+        Err(pn) => fails.push(Fail { class: pn.signature(), detail: format!("{}: raw_data panicked: {}", what, pn.describe()) }),
+        Ok(Err(e)) => fails.push(Fail { class: format!("{}~{}", cls_err, root_kind(&e)), detail: format!("{}: raw_data: {} ({} plaintext bytes)", what, root_kind(&e), raw.len()) }),
+        Ok(Ok(d)) => if &d[..] != raw { fails.push(Fail { class: cls_wrong.into(), detail: format!("{}: raw_data returns {} bytes, expected {}: got {} want {}", what, d.len(), raw.len(), show(&d[..d.len().min(32)]), show(&raw[..raw.len().min(32)])) }); },
+    }
+    match guard(|| Stream::<()>::from_stream(ps.clone(), res).and_then(|s| s.data(res))) {
+        Err(pn) => fails.push(Fail { class: pn.signature(), detail: format!("{}: Stream::data panicked: {}", what, pn.describe()) }),
+        Ok(Err(e)) => fails.push(Fail { class: format!("{}~{}", cls_err, root_kind(&e)), detail: format!("{}: Stream::data: {} ({} decoded bytes)", what, root_kind(&e), decoded.len()) }),
+        Ok(Ok(d)) => if &d[..] != decoded { fails.push(Fail { class: cls_wrong.into(), detail: format!("{}: Stream::data returns {} bytes, expected {}", what, d.len(), decoded.len()) }); },
+    }
+}
+
+/// everything observed on a successfully opened file
+fn inspect<R: Resolve>(res: &R, title: Option<Vec<u8>>, meta_ref: Option<PlainRef>, c: &Case, b: &Built, harness: &mut Vec<String>) -> Vec<Fail> {
+    let mut fails = Vec::new();
+    for it in &c.items {
+        let what = format!("object {} {}", it.nr, it.gen);
+        let is_stream = matches!(it.obj, Obj::Stream(..));
+        let p = match guard(|| res.resolve(pr(it.nr, it.gen))) {
+            Err(pn) => { fails.push(Fail { class: pn.signature(), detail: format!("{}: resolve panicked: {}", what, pn.describe()) }); continue; }
+            Ok(Err(e)) => {
+                let has_str = it.lens.iter().any(|(s, _)| !*s);
+                fails.push(Fail { class: format!("{}~{}", if has_str { "string-error" } else { "stream-error" }, root_kind(&e)), detail: format!("{}: resolve: {} (string lengths {:?})", what, root_kind(&e), it.lens.iter().filter(|l| !l.0).map(|l| l.1).collect::<Vec<_>>()) });
+                continue;
+            }
+            Ok(Ok(p)) => p,
+        };
+        let (mut wrong, mut st) = (Vec::new(), Vec::new());
+        cmp_prim(&p, &it.obj, &what, &mut wrong, &mut st);
+        for w in wrong { fails.push(Fail { class: "wrong-string".into(), detail: w }); }
+        harness.extend(st);
+        if is_stream {
+            let Obj::Stream(_, raw) = &it.obj else { unreachable!() };
+            check_stream(res, p, raw, it.decoded.as_ref().unwrap(), &what, "wrong-stream", "stream-error", &mut fails);
+        }
+    }
+    if let Some(n) = c.contents_nr {
+        match guard(|| res.resolve(pr(n, 0))) {
+            Err(pn) => fails.push(Fail { class: pn.signature(), detail: format!("contents: resolve panicked: {}", pn.describe()) }),
+            Ok(Err(e)) => fails.push(Fail { class: format!("stream-error~{}", root_kind(&e)), detail: format!("contents: resolve: {}", root_kind(&e)) }),
+            Ok(Ok(p)) => {
+                let raw = match b.recs.iter().find(|r| r.nr == n).map(|r| &r.obj) { Some(Obj::Stream(_, d)) => d.clone(), _ => Vec::new() };
+                check_stream(res, p, &raw, &c.contents_decoded, "page contents", "wrong-stream", "stream-error", &mut fails);
+            }
+        }
+    }
+    if let Some(n) = c.info_nr {
+        // the Info strings through resolve (like any other object), then /Title through the typed trailer
+        let expect = b.recs.iter().find(|r| r.nr == n).map(|r| r.obj.clone()).unwrap_or(Obj::Null);
+        match guard(|| res.resolve(pr(n, 0))) {
+            Err(pn) => fails.push(Fail { class: pn.signature(), detail: format!("Info: resolve panicked: {}", pn.describe()) }),
+            Ok(Err(e)) => fails.push(Fail { class: format!("string-error~{}", root_kind(&e)), detail: format!("Info dictionary: resolve: {}", root_kind(&e)) }),
+            Ok(Ok(p)) => {
+                let (mut wrong, mut st) = (Vec::new(), Vec::new());
+                cmp_prim(&p, &expect, "Info", &mut wrong, &mut st);
+                let ok = wrong.is_empty();
+                for w in wrong { fails.push(Fail { class: "wrong-string".into(), detail: w }); }
+                harness.extend(st);
+                match title {
+                    None => if ok { fails.push(Fail { class: "string-error~title-unavailable".into(), detail: "trailer.info_dict.title is None although the Info object resolves with the right strings".into() }); },
+                    Some(t) => if t != c.info_title && ok { fails.push(Fail { class: "wrong-string".into(), detail: format!("trailer.info_dict.title: got {} want {}", show(&t), show(&c.info_title)) }); },
+                }
+            }
+        }
+    }
+    if let Some(n) = c.meta_nr {
+        let (cw, ce) = if c.encmeta { ("wrong-stream", "stream-error") } else { ("metadata-modified", "metadata-modified") };
+        match guard(|| res.resolve(pr(n, 0))) {
+            Err(pn) => fails.push(Fail { class: pn.signature(), detail: format!("metadata: resolve panicked: {}", pn.describe()) }),
+            Ok(Err(e)) => fails.push(Fail { class: format!("{}~{}", ce, root_kind(&e)), detail: format!("metadata: resolve: {}", root_kind(&e)) }),
+            Ok(Ok(p)) => check_stream(res, p, &c.xmp, &c.xmp, "metadata stream", cw, ce, &mut fails),
+        }
+        match meta_ref {
+            None => harness.push("catalog has no /Metadata reference".into()),
+            Some(mr) => match guard(|| res.get(pdf::object::Ref::<Stream<()>>::new(mr)).and_then(|s| (**s.data()).data(res))) {
+                Err(pn) => fails.push(Fail { class: pn.signature(), detail: format!("catalog.metadata data panicked: {}", pn.describe()) }),
+                Ok(Err(e)) => fails.push(Fail { class: format!("{}~{}", ce, root_kind(&e)), detail: format!("catalog.metadata: {}", root_kind(&e)) }),
+                Ok(Ok(d)) => if &d[..] != &c.xmp[..] { fails.push(Fail { class: cw.into(), detail: format!("catalog.metadata data: {} bytes, expected {}", d.len(), c.xmp.len()) }); },
+            },
+        }
+    }
+    if let Some(n) = c.enc_nr {
+        match guard(|| res.resolve(pr(n, 0))) {
+            Err(pn) => fails.push(Fail { class: pn.signature(), detail: format!("/Encrypt object: resolve panicked: {}", pn.describe()) }),
+            Ok(Err(e)) => fails.push(Fail { class: format!("encrypt-dict-modified~{}", root_kind(&e)), detail: format!("/Encrypt object: resolve: {}", root_kind(&e)) }),
+            Ok(Ok(Primitive::Dictionary(d))) => for (k, v) in &b.enc_strings {
+                match d.get(k) {
+                    Some(Primitive::String(s)) if s.as_bytes() == &v[..] => {}
+                    Some(Primitive::String(s)) => fails.push(Fail { class: "encrypt-dict-modified".into(), detail: format!("/Encrypt /{}: got {} want {}", k, hex(s.as_bytes()), hex(v)) }),
+                    _ => harness.push(format!("/Encrypt /{} is not a string", k)),
+                }
+            },
+            Ok(Ok(_)) => harness.push("/Encrypt object is not a dictionary".into()),
+        }
+    }
+    fails
+}
+
+/// one open + everything read through it. `expect_ok`: the reference accepts this password.
+fn eval_open(c: &Case, b: &Built, pw: &[u8], expect_ok: bool, cfg: Cfg, harness: &mut Vec<String>) -> Vec<Fail> {
+    let bytes = b.bytes.clone();
+    let mut hv: Vec<String> = Vec::new();
+    let r = guard(|| with_file!(bytes, cfg, pw, |f| match f {
+        Ok(f) => {
+            if expect_ok {
+                let res = f.resolver();
+                let title = f.trailer.info_dict.as_ref().and_then(|i| i.title.as_ref()).map(|t| t.as_bytes().to_vec());
+                let mref = f.get_root().metadata.map(|m| m.get_inner());
+                Ok(inspect(&res, title, mref, c, b, &mut hv))
+            } else { Ok(Vec::new()) }
+        }
+        Err(e) => Err((root_kind(&e), format!("{:?}", crate::doc::root_cause(&e)).chars().take(240).collect::<String>())),
+    }));
+    harness.extend(hv);
+    match (r, expect_ok) {
+        (Err(pn), _) => vec![Fail { class: pn.signature(), detail: format!("load panicked: {}", pn.describe()) }],
+        (Ok(Ok(f)), true) => f,
+        (Ok(Err((kind, msg))), true) => vec![Fail { class: format!("load-error~{}", kind), detail: format!("load with a correct password fails: {} ({})", kind, msg) }],
+        (Ok(Ok(_)), false) => vec![Fail { class: "wrong-password-accepted".into(), detail: "load succeeds with a password the specification's algorithm rejects".into() }],
+        (Ok(Err((kind, msg))), false) => if kind == "InvalidPassword" { vec![] } else {
+            vec![Fail { class: format!("wrong-password-other-error~{}", kind), detail: format!("wrong password is rejected with {} ({}) instead of InvalidPassword", kind, msg) }]
+        },
+    }
+}
+
+#[derive(Clone, Copy, PartialEq, Eq, Debug, PartialOrd, Ord)]
+enum PwKind { User, Owner, Wrong }
+impl PwKind { fn name(self) -> &'static str { match self { PwKind::User => "user", PwKind::Owner => "owner", PwKind::Wrong => "wrong" } } }
+
+/// passwords that differ from both real ones; only those the reference rejects are used
+fn wrong_passwords(c: &Case, ed: &EncDict) -> Vec<Vec<u8>> {
+    let flip = |b: u8| if b == b'a' { b'b' } else { b'a' };
+    let mut v: Vec<Vec<u8>> = vec![b"wrong-password".to_vec(), Vec::new()];
+    let ascii_tail = |p: &[u8]| p.last().map(|b| *b < 0x80).unwrap_or(false);
+    if !c.upw.is_empty() && ascii_tail(&c.upw[..c.upw.len().min(32)]) {
+        let mut w = c.upw.clone(); let k = w.len().min(32) - 1; w[k] = flip(w[k]); v.push(w);
+        let mut w = c.upw.clone(); w.truncate(c.upw.len().min(32) - 1); v.push(w);
+    }
+    if !c.opw.is_empty() && c.opw[0] < 0x80 { let mut w = c.opw.clone(); w[0] = flip(w[0]); v.push(w); }
+    if c.upw.len() < 32 { let mut w = c.upw.clone(); w.push(b'z'); v.push(w); }
+    if c.opw.len() < 32 { let mut w = c.opw.clone(); w.push(b'z'); v.push(w); }
+    v.retain(|w| w != &c.upw && w != &c.opw && sec::authenticate(ed, w).is_err());
+    v.dedup();
+    v
+}
+
+fn gen_enc_dict(c: &Case, b: &Built) -> EncDict {
+    let g = |k: &str| b.enc_strings.iter().find(|(n, _)| *n == k).map(|(_, v)| v.clone()).unwrap_or_default();
+    EncDict { r: c.h.r(), key_bytes: c.key_bytes, cfm: c.h.cfm(), p: c.p, encrypt_metadata: c.encmeta, id0: c.id0.clone(), o: g("O"), u: g("U"), oe: g("OE"), ue: g("UE"), perms: g("Perms") }
+}
+
+/// all opens of one kind in one configuration; returns the failures
+fn eval_kind(c: &Case, b: &Built, ed: &EncDict, kind: PwKind, cfg: Cfg, harness: &mut Vec<String>, run: Option<&Run>) -> Vec<Fail> {
+    let pws: Vec<Vec<u8>> = match kind { PwKind::User => vec![c.upw.clone()], PwKind::Owner => vec![c.eff_opw().to_vec()], PwKind::Wrong => wrong_passwords(c, ed) };
+    let mut out = Vec::new();
+    for pw in pws {
+        let expect_ok = sec::authenticate(ed, &pw).is_ok();
+        if let Some(run) = run {
+            run.eval();
+            run.count(&format!("open:{}:{}:{}", c.variant(), kind.name(), if expect_ok { "accept" } else { "reject" }));
+            run.count(&format!("cfg:{}", cfg.name()));
+        }
+        let mut fs = eval_open(c, b, &pw, expect_ok, cfg, harness);
+        if kind == PwKind::Wrong && fs.iter().any(|f| f.class.starts_with("wrong-password-other-error")) && sec::authenticate(ed, &c.upw).is_ok() {
+            // the document does not open with the right password either, with the same error: that is the load-error
+            // finding of the user-password open, not a second one
+            let base = eval_open(c, b, &c.upw, true, cfg, &mut Vec::new());
+            fs.retain(|f| !base.iter().any(|g| g.class.starts_with("load-error") && g.class.split('~').nth(1) == f.class.split('~').nth(1)));
+        }
+        out.extend(fs);
+    }
+    out
+}
+
+// ------------------------------------------------------------------------------------------ fixtures self-test
+
+fn looks_like_content_stream(d: &[u8]) -> bool {
+    d.len() > 20 && d.iter().all(|&b| b == b'\n' || b == b'\r' || b == b'\t' || (0x20..0x7f).contains(&b))
+        && d.windows(2).any(|w| w == b"BT") && d.windows(2).any(|w| w == b"ET")
+}
+
+/// The reference handler must open the ten third-party fixtures, reproduce their O/U/UE/OE/Perms values in the
+/// *encrypt* direction and decrypt their content stream.
+fn selftest(run: &Run) -> Result<(), String> {
+    sec::primitive_kats()?;
+    let files: [(&str, &[u8], Option<&[u8]>); 10] = [
+        ("encrypted_rc4_rev2.pdf", b"", None), ("encrypted_rc4_rev3.pdf", b"", None), ("encrypted_aes_128.pdf", b"", None),
+        ("encrypted_aes_256.pdf", b"", None), ("encrypted_aes_256_hardened.pdf", b"", None),
+        ("password_protected/passwords_rc4_rev2.pdf", b"userpassword", Some(b"ownerpassword")),
+        ("password_protected/passwords_rc4_rev3.pdf", b"userpassword", Some(b"ownerpassword")),
+        ("password_protected/passwords_aes_128.pdf", b"userpassword", Some(b"ownerpassword")),
+        ("password_protected/passwords_aes_256.pdf", b"userpassword", Some(b"ownerpassword")),
+        ("password_protected/passwords_aes_256_hardened.pdf", b"userpassword", Some(b"ownerpassword")),
+    ];
+    for (f, upw, opw) in files {
+        let path = format!("/repo/files/{}", f);
+        let bytes = std::fs::read(&path).map_err(|e| format!("{}: {}", path, e))?;
+        let (tr, objs) = rd::read_classic(&bytes).map_err(|e| format!("{}: {}", f, e))?;
+        let id0 = match tr.get("ID") { Some(Obj::Arr(a)) => obj_str(a.first()), _ => return Err(format!("{}: no ID", f)) };
+        let Some(Obj::Ref(en, _)) = tr.get("Encrypt") else { return Err(format!("{}: Encrypt not a reference", f)) };
+        let enc = &objs.iter().find(|o| o.0 == *en).ok_or(format!("{}: Encrypt object missing", f))?.2;
+        let (ed, _, _) = encdict_from_obj(enc, &id0).map_err(|e| format!("{}: {}", f, e))?;
+        let (key, who) = sec::authenticate(&ed, upw).map_err(|e| format!("{}: user password: {}", f, e))?;
+        // (the encrypted_* files have empty user AND owner passwords, so either role is right for them)
+        if who != "user" && opw.is_some() { return Err(format!("{}: user password authenticated as {}", f, who)); }
+        if sec::authenticate(&ed, b"definitely-wrong").is_ok() { return Err(format!("{}: wrong password accepted by the reference", f)); }
+        // encrypt direction: reproduce the stored check values
+        if ed.r <= 4 {
+            let mut tail = [0u8; 16];
+            if ed.r >= 3 { tail.copy_from_slice(&ed.u[16..32]); }
+            if sec::alg45_u(ed.r, &key, &id0, &tail) != ed.u { return Err(format!("{}: U is not reproduced", f)); }
+        } else {
+            let mut salts = [0u8; 16];
+            salts.copy_from_slice(&ed.u[32..48]);
+            let (u, ue) = sec::alg8_u_ue(ed.r, upw, &key, &salts);
+            if u != ed.u[..48] || ue != ed.ue { return Err(format!("{}: U/UE are not reproduced", f)); }
+            sec::alg13_check_perms(&ed, &key).map_err(|e| format!("{}: {}", f, e))?;
+            let dp = sec::aes_cbc_dec_nopad(&key, &[0; 16], &ed.perms)?;
+            let mut rnd = [0u8; 4];
+            rnd.copy_from_slice(&dp[12..16]);
+            if dp[4..8] == [0xff; 4] && sec::alg10_perms(ed.p, ed.encrypt_metadata, &key, &rnd) != ed.perms { return Err(format!("{}: Perms is not reproduced", f)); }
+        }
+        if let Some(opw) = opw {
+            let (okey, who) = sec::authenticate(&ed, opw).map_err(|e| format!("{}: owner password: {}", f, e))?;
+            if who != "owner" || okey != key { return Err(format!("{}: owner password gives {} / key equal: {}", f, who, okey == key)); }
+            if ed.r <= 4 {
+                if sec::alg3_o(ed.r, ed.key_bytes, opw, upw) != ed.o { return Err(format!("{}: O is not reproduced", f)); }
+            } else {
+                let mut salts = [0u8; 16];
+                salts.copy_from_slice(&ed.o[32..48]);
+                let (o, oe) = sec::alg9_o_oe(ed.r, opw, &key, &salts, &ed.u[..48]);
+                if o != ed.o[..48] || oe != ed.oe { return Err(format!("{}: O/OE are not reproduced", f)); }
+            }
+            run.count("selftest:owner-password-fixtures");
+        }
+        // a stream whose plaintext is recognisable
+        let mut seen = 0;
+        for (nr, gen, o) in &objs {
+            if let Obj::Stream(_, data) = o {
+                let plain = sec::decrypt_data(&key, ed.cfm, *nr, *gen, data).map_err(|e| format!("{}: stream {}: {}", f, nr, e))?;
+                if !looks_like_content_stream(&plain) { return Err(format!("{}: stream {} does not decrypt to a content stream: {}", f, nr, show(&plain[..plain.len().min(40)]))); }
+                // encrypt direction reproduces the stored ciphertext
+                let mut iv = [0u8; 16];
+                if ed.cfm != Cfm::Rc4 { iv.copy_from_slice(&data[..16]); }
+                if sec::encrypt_data(&key, ed.cfm, *nr, *gen, &iv, &plain) != *data { return Err(format!("{}: stream {} is not reproduced by the encryptor", f, nr)); }
+                seen += 1;
+            }
+        }
+        if seen == 0 { return Err(format!("{}: no stream found", f)); }
+        run.count("selftest:fixtures-decrypted");
+    }
+    Ok(())
+}
+
+// ------------------------------------------------------------------------------------------ driver
+
+struct Found { idx: u64, tape: std::sync::Arc<Vec<u32>>, force_h: usize, huge: bool, kind: PwKind, cfg: Cfg, fail: Fail }
+
+fn prepare(tape: &[u32], force_h: usize, huge: bool) -> Result<(Case, Built, EncDict), String> {
+    let mut src = Src::replay(tape);
+    let c = gen_case(&mut src, force_h, huge);
+    let b = build(&c);
+    verify_readback(&c, &b)?;
+    let ed = gen_enc_dict(&c, &b);
+    Ok((c, b, ed))
+}
+
+/// Shrinker for positional tapes: zero blocks of entries (64, 16, 4, 1), then lower the surviving entries.
+fn shrink_pos(tape: &[u32], mut fails: impl FnMut(&[u32]) -> bool, budget: usize) -> Vec<u32> {
+    let mut cur = tape.to_vec();
+    let mut calls = 0usize;
+    loop {
+        let mut improved = false;
+        for bs in [64usize, 16, 4, 1] {
+            let mut i = 0;
+            while i < cur.len() {
+                let j = (i + bs).min(cur.len());
+                if cur[i..j].iter().any(|&v| v != 0) && calls < budget {
+                    let mut cand = cur.clone();
+                    for v in &mut cand[i..j] { *v = 0; }
+                    calls += 1;
+                    if fails(&cand) { cur = cand; improved = true; }
+                }
+                i = j;
+            }
+        }
+        for i in 0..cur.len() {
+            if cur[i] > 1 && cur[i] < 16 {
+                for nv in [1, cur[i] - 1] {
+                    if nv >= cur[i] || calls >= budget { continue; }
+                    let mut cand = cur.clone();
+                    cand[i] = nv;
+                    calls += 1;
+                    if fails(&cand) { cur = cand; improved = true; }
+                }
+            }
+        }
+        if !improved || calls >= budget { break; }
+    }
+    while cur.last() == Some(&0) { cur.pop(); }
+    cur
+}
+
+static HUGE_LOCK: Mutex<()> = Mutex::new(());
+
+/// classes of all failures of one (password kind, configuration) evaluation; None when the case does not build
+fn classes_of(tape: &[u32], force_h: usize, huge: bool, kind: PwKind, cfg: Cfg) -> Option<Vec<String>> {
+    let (c, b, ed) = prepare(tape, force_h, huge).ok()?;
+    let _g = if huge { Some(HUGE_LOCK.lock().unwrap()) } else { None };
+    let mut h = Vec::new();
+    Some(eval_kind(&c, &b, &ed, kind, cfg, &mut h, None).into_iter().map(|f| f.class).collect())
+}
+fn has_class(tape: &[u32], force_h: usize, huge: bool, kind: PwKind, cfg: Cfg, class: &str) -> bool {
+    classes_of(tape, force_h, huge, kind, cfg).map(|v| v.iter().any(|c| c == class)).unwrap_or(false)
+}
+/// no failure of any class
+fn is_clean(tape: &[u32], force_h: usize, huge: bool, kind: PwKind, cfg: Cfg) -> bool {
+    classes_of(tape, force_h, huge, kind, cfg).map(|v| v.is_empty()).unwrap_or(false)
+}
+
+/// a reported signature, in the form needed to decide whether it explains another raw failure
+struct SigInfo { class: String, handlers: Vec<usize>, labels: Vec<String>, sig: String }
+
+fn explains(s: &SigInfo, f: &Found, raw_labels: &[&str]) -> bool {
+    // a document that does not load with error K whatever the password also "rejects a wrong password with K": same finding
+    let same = s.class == f.fail.class
+        || (s.class.starts_with("load-error~") && f.fail.class.starts_with("wrong-password-other-error~") && s.class.split('~').nth(1) == f.fail.class.split('~').nth(1));
+    if !same || !s.handlers.contains(&f.force_h) { return false; }
+    s.labels.iter().all(|l| match l.as_str() {
+        "as-owner" => f.kind == PwKind::Owner,
+        "as-user" => f.kind == PwKind::User,
+        "cfg-strict" => !f.cfg.tolerant,
+        "cfg-tolerant" => f.cfg.tolerant,
+        "cfg-cached" => f.cfg.cached,
+        "cfg-uncached" => !f.cfg.cached,
+        l if l.starts_with("cfg-") => l[4..].split(',').any(|n| n == f.cfg.name()),
+        l => raw_labels.contains(&l),
+    })
+}
+
+fn report(run: &Run, fd: &Found, budget: usize) -> Option<SigInfo> {
+    let class = fd.fail.class.clone();
+    let shrunk = shrink_pos(&fd.tape, |t| has_class(t, fd.force_h, fd.huge, fd.kind, fd.cfg, &class), budget);
+    let Ok((c, b, _ed)) = prepare(&shrunk, fd.force_h, fd.huge) else { run.inconclusive("shrunk case no longer builds".into()); return None };
+    // which handlers fail identically on the shrunk tape. Another handler only counts when the shrunk case is minimal
+    // under it as well (zeroing any remaining choice makes the failure disappear); otherwise it fails for a reason of
+    // its own that needs fewer features.
+    let minimal_under = |h: usize| -> bool {
+        (0..shrunk.len()).filter(|&i| shrunk[i] != 0).all(|i| { let mut t = shrunk.clone(); t[i] = 0; !has_class(&t, h, fd.huge, fd.kind, fd.cfg, &class) })
+    };
+    let failing: Vec<usize> = (0..6).filter(|&h| h == fd.force_h || (has_class(&shrunk, h, fd.huge, fd.kind, fd.cfg, &class) && minimal_under(h))).collect();
+    let variant = if failing.len() == 6 { "all".to_string() } else {
+        failing.iter().map(|&h| { let mut s = Src::replay(&shrunk); gen_case(&mut s, h, fd.huge).variant() }).collect::<Vec<_>>().join("+")
+    };
+    // which password kinds / configurations fail on the shrunk case
+    let mut labels: Vec<String> = if c.labels.is_empty() { vec![] } else { c.labels.split('+').map(|s| s.to_string()).collect() };
+    if fd.kind != PwKind::Wrong {
+        let other = if fd.kind == PwKind::User { PwKind::Owner } else { PwKind::User };
+        // only when the other password opens the shrunk document without any failure
+        // (under at least one handler of the group, so that another defect of one handler does not change the signature)
+        if failing.iter().any(|&h| is_clean(&shrunk, h, fd.huge, other, fd.cfg)) { labels.push(format!("as-{}", fd.kind.name())); }
+    }
+    // a configuration restricts the signature only when the shrunk document is completely clean in it
+    let cf: Vec<Cfg> = CFGS.iter().cloned().filter(|&g| g == fd.cfg || !failing.iter().any(|&h| is_clean(&shrunk, h, fd.huge, fd.kind, g))).collect();
+    if cf.len() != 4 {
+        let strict_only = cf.iter().all(|g| !g.tolerant) && cf.len() == 2;
+        let tol_only = cf.iter().all(|g| g.tolerant) && cf.len() == 2;
+        let cached_only = cf.iter().all(|g| g.cached) && cf.len() == 2;
+        let unc_only = cf.iter().all(|g| !g.cached) && cf.len() == 2;
+        labels.push(if strict_only { "cfg-strict".into() } else if tol_only { "cfg-tolerant".into() } else if cached_only { "cfg-cached".into() } else if unc_only { "cfg-uncached".into() }
+            else { format!("cfg-{}", cf.iter().map(|g| g.name()).collect::<Vec<_>>().join(",")) });
+    }
+    labels.sort(); labels.dedup();
+    let sig = format!("C06|{}|{}|{}", variant, labels.join("+"), outcome(&class));
+    // detail of the shrunk case
+    let mut h = Vec::new();
+    let ed = gen_enc_dict(&c, &b);
+    let detail = eval_kind(&c, &b, &ed, fd.kind, fd.cfg, &mut h, None).into_iter().find(|f| f.class == class).map(|f| f.detail).unwrap_or_else(|| fd.fail.detail.clone());
+    let mut wit = json!({
+        "case_index": fd.idx, "tape": shrunk, "forced_handler_index": fd.force_h, "huge_object_numbers": fd.huge,
+        "variant": c.variant(), "labels": c.labels, "password_kind": fd.kind.name(), "cfg": fd.cfg.name(),
+        "user_password": show(&c.upw), "owner_password": show(&c.opw), "user_password_hex": hex(&c.upw), "owner_password_hex": hex(c.eff_opw()),
+        "P": c.p, "detail": detail, "original_detail": fd.fail.detail, "pdf_len": b.bytes.len(),
+    });
+    if b.bytes.len() <= 8192 { wit["pdf_hex"] = Value::String(hex(&b.bytes)); }
+    run.violation(&sig, &format!("[{} as {} in {}] {}", c.variant(), fd.kind.name(), fd.cfg.name(), detail), wit);
+    Some(SigInfo { class, handlers: failing, labels, sig })
+}
+
+pub fn run(run: &Run) {
+    run.rule("documents = tape-driven mkpdf files encrypted by the reference standard security handler: handler round-robin over {R2-RC4-40, R3-RC4-(40..128 step 8), R4-V2-(40..128), R4-AESV2-128, R5-AESV3-256, R6-AESV3-256}; user/owner password length classes {0,1..31,32,33..40} (ASCII; UTF-8 with SASLprep-neutral non-ASCII for R5/R6); P; ID length; /Encrypt direct|indirect; xref table|stream; object streams; EncryptMetadata default|true|false with XMP stream; Info dict; Flate page contents; 1-6 test objects (bare/nested strings, streams plain/Flate/with dictionary string) with plaintext lengths {24,0,1,15,16,17,31,32,33,34..4096}, object numbers consecutive | 65536+ | near 2^23-1, generation 0 | 1..65534; StmF/StrF Identity and omitted /Length entries as labelled rare choices; near-miss /U documents (one bit flipped in the last compared byte) for the rejection side. Each document is opened with user and owner password in 4 configurations and with up to 7 reference-rejected passwords. evaluation = one open + everything read through it; distinct_nontrivial = distinct document bytes opened with a reference-accepted password");
+    run.assume("reference security handler refimpl/c06_sec.rs is correct: at start-up it opens the 10 third-party fixtures with user and owner passwords, reproduces their O/U/UE/OE/Perms and stream ciphertexts in the encrypt direction and decrypts their content streams; RC4/AES/CBC/MD5 known-answer tests");
+    run.assume("generated passwords are SASLprep-neutral (printable ASCII plus U+00E9 U+00DF U+0436 U+4E2D U+20AC U+00FC), so the reference omits SASLprep");
+    run.assume("md5, sha2 and aes crates are trusted block primitives (shared with the library); RC4, CBC chaining, padding and all PDF algorithms are independent code");
+    if let Err(e) = selftest(run) {
+        run.inconclusive(format!("reference security handler self-test failed: {}", e));
+        return;
+    }
+    let n = run.n(900, 21_000);
+    let found: Mutex<Vec<Found>> = Mutex::new(Vec::new());
+    par_for(n, |i| {
+        let force_h = (i % 6) as usize;
+        let huge = i % 97 == 5;
+        let mut src = Src::fresh(Rng::derive(run.seed, 6, i));
+        let c = gen_case(&mut src, force_h, huge);
+        let tape = std::sync::Arc::new(src.tape.clone());
+        let b = build(&c);
+        if let Err(e) = verify_readback(&c, &b) {
+            run.eval();
+            run.inconclusive(format!("case {} ({} {}): generated document fails the reference read-back: {}", i, c.variant(), c.labels, e));
+            return;
+        }
+        let ed = gen_enc_dict(&c, &b);
+        let _g = if huge { Some(HUGE_LOCK.lock().unwrap()) } else { None };
+        let mut harness = Vec::new();
+        let mut any = false;
+        for (k, kind) in [PwKind::User, PwKind::Owner, PwKind::Wrong].into_iter().enumerate() {
+            for (j, cfg) in CFGS.iter().enumerate() {
+                // wrong passwords: one configuration per document (rotating); near-miss and correct ones: all four
+                if kind == PwKind::Wrong && j as u64 != (i / 6) % 4 { continue; }
+                let fails = eval_kind(&c, &b, &ed, kind, *cfg, &mut harness, Some(run));
+                for f in fails {
+                    any = true;
+                    found.lock().unwrap().push(Found { idx: i, tape: tape.clone(), force_h, huge, kind, cfg: *cfg, fail: f });
+                }
+            }
+            let _ = k;
+        }
+        if !harness.is_empty() {
+            harness.sort(); harness.dedup();
+            run.inconclusive(format!("case {} ({}): structure differs outside strings/streams: {}", i, c.variant(), harness[0]));
+        }
+        if sec::authenticate(&ed, &c.upw).is_ok() || sec::authenticate(&ed, c.eff_opw()).is_ok() { run.nontrivial(fnv(&b.bytes)); }
+        run.count(&format!("docs:{}", c.variant()));
+        if c.near_miss { run.count(&format!("docs-near-miss:{}", c.variant())); }
+        if huge { run.count("docs:huge-object-numbers-enabled"); }
+        for l in c.labels.split('+').filter(|l| !l.is_empty() && !l.starts_with("len")) { run.count(&format!("feature:{}", l)); }
+        for cls in ["upw", "opw"] {
+            let p = if cls == "upw" { &c.upw } else { &c.opw };
+            let n = String::from_utf8_lossy(p).chars().count();
+            run.count(&format!("{}-chars:{}:{}", cls, c.variant().split('-').next().unwrap_or(""), match n { 0 => "0", 1..=31 => "1-31", 32 => "32", _ => "33-40" }));
+        }
+        for it in &c.items { for (s, l) in &it.lens { run.count(&format!("{}:{}:{}", if *s { "stream" } else { "string" }, c.h.name(c.key_bytes).rsplitn(2, '-').last().unwrap_or(""), len_class(*l))); } }
+        if i < 6 {
+            run.sample(json!({"variant": c.variant(), "labels": c.labels, "user_password": show(&c.upw), "owner_password": show(&c.opw), "P": c.p,
+                "objects": c.items.iter().map(|it| format!("{} {}{}", it.nr, it.gen, if it.in_objstm { " (objstm)" } else { "" })).collect::<Vec<_>>(), "pdf_len": b.bytes.len(), "failed": any}));
+        }
+    });
+    // phase 2: shrink a bounded, deterministic selection of failures per rough key; failures that the signatures
+    // found so far explain (same class and error kind, handler in the group, signature labels present in the
+    // document) are only counted; the unexplained rest is selected again, up to four rounds.
+    let mut found = found.into_inner().unwrap();
+    found.sort_by(|a, b| (a.idx, a.kind, a.cfg.name(), &a.fail.class).cmp(&(b.idx, b.kind, b.cfg.name(), &b.fail.class)));
+    let mut raw_labels: BTreeMap<u64, String> = BTreeMap::new();
+    for f in &found {
+        raw_labels.entry(f.idx).or_insert_with(|| { let mut s = Src::replay(&f.tape); gen_case(&mut s, f.force_h, f.huge).labels });
+    }
+    let per_key = run.n(3, 8) as usize;
+    let budget = 300;
+    let mut sigs: Vec<SigInfo> = Vec::new();
+    let mut rest = found;
+    let mut deferred: Vec<Found> = Vec::new();
+    for round in 0..4 {
+        let mut groups: BTreeMap<String, Vec<Found>> = BTreeMap::new();
+        for f in rest {
+            let rl: Vec<&str> = raw_labels[&f.idx].split('+').collect();
+            if let Some(s) = sigs.iter().find(|s| explains(s, &f, &rl)) { run.count(&format!("failures-explained-by:{}", s.sig)); continue; }
+            // wrong-password-other-error waits for the load-error signatures of the first round
+            if round == 0 && f.fail.class.starts_with("wrong-password-other-error") { deferred.push(f); continue; }
+            let key = format!("{}|{}|{}|{}", HS[f.force_h].name(0).rsplitn(2, '-').last().unwrap_or(""), f.kind.name(), if f.cfg.tolerant { "tolerant" } else { "strict" }, f.fail.class);
+            groups.entry(key).or_default().push(f);
+        }
+        if groups.is_empty() && deferred.is_empty() { rest = Vec::new(); break; }
+        let mut todo: Vec<Found> = Vec::new();
+        rest = std::mem::take(&mut deferred);
+        for (_, v) in groups {
+            let mut seen_idx = Vec::new();
+            for f in v {
+                if !seen_idx.contains(&f.idx) && seen_idx.len() < per_key { seen_idx.push(f.idx); todo.push(f); } else { rest.push(f); }
+            }
+        }
+        run.add(&format!("failures:shrunk-in-round-{}", round + 1), todo.len() as u64);
+        let new: Mutex<Vec<SigInfo>> = Mutex::new(Vec::new());
+        par_for(todo.len() as u64, |k| if let Some(s) = report(run, &todo[k as usize], budget) { new.lock().unwrap().push(s); });
+        let mut new = new.into_inner().unwrap();
+        new.sort_by(|a, b| a.sig.cmp(&b.sig));
+        sigs.extend(new);
+    }
+    if !rest.is_empty() {
+        let rl_rest = rest.iter().filter(|f| { let rl: Vec<&str> = raw_labels[&f.idx].split('+').collect(); !sigs.iter().any(|s| explains(s, f, &rl)) }).count();
+        run.add("failures:neither-shrunk-nor-explained", rl_rest as u64);
+    }
+}
